@@ -32,6 +32,11 @@ from vizier.service import pyvizier as vz
 from google.protobuf import empty_pb2
 
 
+def _error_text(e: Exception) -> str:
+  """str(e) as text a gRPC status can carry (no lone surrogates)."""
+  return str(e).encode('utf-8', 'backslashreplace').decode('utf-8')
+
+
 @attr.define
 class PythiaServicer(pythia_service_pb2_grpc.PythiaServiceServicer):
   """Implements the GRPC functions outlined in pythia_service.proto."""
@@ -89,7 +94,9 @@ class PythiaServicer(pythia_service_pb2_grpc.PythiaServiceServicer):
       logging.error(
           'Failed to request trials from Pythia for request: %s', request
       )
-      raise RuntimeError('Pythia has encountered an error: ' + str(e)) from e
+      raise RuntimeError(
+          'Pythia has encountered an error: ' + _error_text(e)
+      ) from e
 
     return vz.SuggestConverter.to_decision_proto(suggest_decision)
 
@@ -124,7 +131,9 @@ class PythiaServicer(pythia_service_pb2_grpc.PythiaServiceServicer):
           ' request: %s',
           request,
       )
-      raise RuntimeError('Pythia has encountered an error: ' + str(e)) from e
+      raise RuntimeError(
+          'Pythia has encountered an error: ' + _error_text(e)
+      ) from e
 
     return vz.EarlyStopConverter.to_decisions_proto(early_stopping_decisions)
 
